@@ -35,7 +35,7 @@ SubPart == <<Text(<<"s", ":">>), Emit(Id("d")), Emit(Id("o"))>>
 
 Comps == {"cfor_omit", "partial", "partial_js", "partial_html", "partial_nodata", "layout", "layout2", "layout_js", "nested", "cfor", "cfor_twice", "cfor_redefined",
           "cof_default", "cof_undefined", "cof_defined_default", "blk", "blkown", "blks", "cfor_inloop", "layout_cfor",
-          "layout_shared", "layout_sharedloop", "cfor_timefmt", "partial_timefmt", "blkown_timefmt", "cofdefault_timefmt"}
+          "layout_shared", "layout_sharedloop", "cfor_changed", "partial_nil", "cof_nil", "cfor_timefmt", "partial_timefmt", "blkown_timefmt", "cofdefault_timefmt"}
 CTs == {"none", "html", "js"}
 CT(c) == CASE c = "none" -> EmptyScope [] c = "html" -> [contentType |-> S(<<"t","e","x","t","/","h","t","m","l">>)]
            [] c = "js" -> [contentType |-> S(<<"a","p","p","/","j","a","v","a","s","c","r","i","p","t">>)]
@@ -89,6 +89,16 @@ Compose(c, body) ==
     [] c = "partial_timefmt" -> [prog |-> <<Emit(Call("partial", <<P(<<"p">>), DTF>>)), Emit(Id("tm"))>>, parts |-> [p |-> body], inline |-> <<Emit(CallB("blkown", <<DTF>>, body)), Emit(Id("tm"))>>]
     [] c = "blkown_timefmt" -> [prog |-> <<Emit(CallB("blkown", <<DTF>>, body)), Emit(Id("tm"))>>, parts |-> EmptyScope, inline |-> <<>>]
     [] c = "cofdefault_timefmt" -> [prog |-> <<Emit(CallB("contentOf", <<Str(<<"n">>), DTF>>, body)), Emit(Id("tm"))>>, parts |-> EmptyScope, inline |-> <<Emit(CallB("blkown", <<DTF>>, body)), Emit(Id("tm"))>>]
+    \* the stored block emitted twice WITHOUT data, with what it reads changed in between: every emission renders afresh
+    [] c = "cfor_changed" -> [prog |-> <<Code(CallB("contentFor", <<Str(<<"c">>)>>, body \o <<Emit(Id("o"))>>)), Let("d", D), Emit(Call("contentOf", <<Str(<<"c">>)>>)), Text(<<"|">>),
+                                          Let("o", Str(<<"P">>)), Let("d", Str(<<"2">>)), Emit(Call("contentOf", <<Str(<<"c">>)>>)), Let("o", Str(<<"O", "APOS">>))>>, parts |-> EmptyScope,
+                              inline |-> <<Let("d", D), Emit(CallB("blkown", <<Hash(<<>>, <<>>)>>, body \o <<Emit(Id("o"))>>)), Text(<<"|">>),
+                                           Let("o", Str(<<"P">>)), Let("d", Str(<<"2">>)), Emit(CallB("blkown", <<Hash(<<>>, <<>>)>>, body \o <<Emit(Id("o"))>>)), Let("o", Str(<<"O", "APOS">>))>>]
+    \* a data key bound to nil hides the caller's variable of that name
+    [] c = "partial_nil"  -> [prog |-> <<Let("d", D), Emit(Call("partial", <<P(<<"p">>), Hash(<<"d">>, <<Id("nil")>>)>>))>>, parts |-> [p |-> body],
+                              inline |-> <<Let("d", D), Emit(CallB("blkown", <<Hash(<<"d">>, <<Id("nil")>>)>>, body))>>]
+    [] c = "cof_nil"      -> [prog |-> <<Let("d", D), Code(CallB("contentFor", <<Str(<<"c">>)>>, body)), Emit(Call("contentOf", <<Str(<<"c">>), Hash(<<"d">>, <<Id("nil")>>)>>))>>, parts |-> EmptyScope,
+                              inline |-> <<Let("d", D), Emit(CallB("blkown", <<Hash(<<"d">>, <<Id("nil")>>)>>, body))>>]
     [] c = "cfor_redefined" -> [prog |-> <<Code(CallB("contentFor", <<Str(<<"c">>)>>, <<Text(<<"o", "l", "d">>)>>)), Code(CallB("contentFor", <<Str(<<"c">>)>>, body)), Emit(Call("contentOf", <<Str(<<"c">>), DH>>))>>, parts |-> EmptyScope,
                               inline |-> <<Emit(CallB("blkown", <<DH>>, body))>>]
     [] c = "cof_default"  -> [prog |-> <<Emit(CallB("contentOf", <<Str(<<"n">>), DH>>, body))>>, parts |-> EmptyScope, inline |-> <<Emit(CallB("blkown", <<DH>>, body))>>]
